@@ -6,6 +6,7 @@ import (
 	"encoding/binary"
 	"fmt"
 	"net"
+	"strings"
 	"sync"
 	"sync/atomic"
 	"time"
@@ -75,6 +76,8 @@ func runC08Case(c cfg, seed uint64, nclients, perClient int, keys map[string]str
 	byAddr := sync.Map{} // "ip:port" -> *udpClient
 	var mon *monitor
 	var callbacks, answersSent, inflight atomic.Int64
+	var wantLocal atomic.Value
+	wantLocal.Store("")
 	sendto0 := vsys.Calls[vsys.CSendto].Load()
 	seen := sync.Map{} // client<<32|seq -> count
 	fail := func(sig, detail string) {
@@ -82,7 +85,13 @@ func runC08Case(c cfg, seed uint64, nclients, perClient int, keys map[string]str
 	}
 	sizeOf := func(client int, seq uint32) int {
 		h := vlib.Mix(seed ^ uint64(client)<<20 ^ uint64(seq)*7919)
-		switch h % 9 {
+		// payloads up to the read-buffer size must arrive whole, the exact fit included
+		limit := c.RCap
+		if limit > 65507 {
+			limit = 65507
+		}
+		n := 0
+		switch h % 11 {
 		case 0:
 			return 0
 		case 1:
@@ -90,16 +99,24 @@ func runC08Case(c cfg, seed uint64, nclients, perClient int, keys map[string]str
 		case 2:
 			return dgHdr + 1
 		case 3:
-			return 1472
+			n = 1472
 		case 4:
-			return 1473
+			n = 1473
 		case 5:
-			return 8192
+			n = 8192
 		case 6:
-			return 65507
+			return limit
+		case 7:
+			return limit - 1
+		case 8:
+			n = 65507
 		default:
-			return dgHdr + int(h>>8)%2000
+			n = dgHdr + int(h>>8)%2000
 		}
+		if n > limit {
+			n = dgHdr + int(h>>8)%(limit-dgHdr)
+		}
+		return n
 	}
 	ansKind := func(client int, seq uint32) (kind byte, target int) {
 		h := vlib.Mix(seed ^ 0x77 ^ uint64(client)<<24 ^ uint64(seq))
@@ -124,6 +141,9 @@ func runC08Case(c cfg, seed uint64, nclients, perClient int, keys map[string]str
 			return gnet.None
 		}
 		cl := v.(*udpClient)
+		if la := gc.LocalAddr(); la == nil || la.String() != wantLocal.Load().(string) {
+			fail("LocalAddr is not the listener's address", fmt.Sprintf("LocalAddr() = %v, the listener is bound to %s", la, wantLocal.Load()))
+		}
 		n := gc.InboundBuffered()
 		b, err := gc.Peek(-1)
 		if err != nil || len(b) != n {
@@ -196,6 +216,9 @@ func runC08Case(c cfg, seed uint64, nclients, perClient int, keys map[string]str
 		}
 		answersSent.Add(1)
 		cl.processed.Add(1)
+		if n == c.RCap {
+			key(fmt.Sprintf("%s|datagram|size=read-buffer-exactly(%d)", c.Net, n))
+		}
 		key(fmt.Sprintf("%s|datagram|size=%s|answer=%c", c.Net, dgSizeClass(n), kind))
 		return gnet.None
 	}
@@ -207,13 +230,27 @@ func runC08Case(c cfg, seed uint64, nclients, perClient int, keys map[string]str
 		res.Inconc("c08 %s: engine did not start: %v", c, err)
 		return 0
 	}
+	wantLocal.Store(life.dialAddr)
 	srvAddr, _ := net.ResolveUDPAddr(life.dialNet, life.dialAddr)
-	host := "127.0.0.1"
+	host, zone := "127.0.0.1", ""
 	if c.Net == "udp6" {
 		host = "::1"
 	}
+	if c.LinkLocal != "" {
+		// senders with a scoped (link-local) address: RemoteAddr and SendTo targets carry a zone
+		i := strings.IndexByte(c.LinkLocal, '%')
+		host, zone = c.LinkLocal[:i], c.LinkLocal[i+1:]
+		key(c.Net + "|link-local-scoped-addresses")
+	}
+	// a legitimate user of the byte pool scribbles over whatever it is given: address and zone strings that were
+	// handed to the pool while still in use would change under the handler's eyes
+	puStop := make(chan struct{})
+	var puWG sync.WaitGroup
+	puWG.Add(1)
+	go poolUser(puStop, &puWG)
+	defer func() { close(puStop); puWG.Wait() }()
 	for i := range clients {
-		la := &net.UDPAddr{IP: net.ParseIP(host)}
+		la := &net.UDPAddr{IP: net.ParseIP(host), Zone: zone}
 		if r.Intn(3) == 0 && c.Net == "udp" {
 			la.IP = net.ParseIP(host).To16() // 16-byte form of an IPv4 address
 		}
@@ -313,8 +350,11 @@ func runC08Case(c cfg, seed uint64, nclients, perClient int, keys map[string]str
 					cl.emptySent.Add(1)
 				}
 				// keep the bytes in flight below the listener's receive buffer so that loopback does not drop
-				for k := 0; inflight.Load() > 0 && inflight.Load()+int64(len(d)) > 80*1024 && k < 100000; k++ {
+				for k := 0; inflight.Load() > 0 && inflight.Load()+int64(len(d)) > 80*1024; k++ {
 					time.Sleep(20 * time.Microsecond)
+					if k > 20000 {
+						return // bytes sent long ago are still unaccounted for: lost or dropped, decided below
+					}
 				}
 				inflight.Add(int64(len(d)) + 512)
 				if _, err := cl.conn.WriteToUDP(d, srvAddr); err != nil {
